@@ -85,7 +85,7 @@ func initialConfig() *gcfg.Config {
 	c.Config.Bind = "127.0.0.1:25565"
 	c.Config.Lite.Enabled = true
 	c.Config.Lite.Routes = []liteconfig.Route{route(1000)}
-	c.Config.Status.Favicon = "" // 5 KB of base64 that every marshal under -race would pay for
+	c.Config.Status.Favicon = "data:image/png;base64,iVBORw0KGgo=" // the default is 5 KB of base64 that every marshal under -race would pay for (an empty favicon does not survive ConfigSnapshot: see C37)
 	// own the reference-typed members so that histories do not share mutable state
 	c.Config.Servers = map[string]string{}
 	c.Config.ForcedHosts = map[string][]string{}
@@ -688,8 +688,8 @@ func TestC35(t *testing.T) {
 	r.Assume("porcupine v1.3.0 decides linearizability of each recorded history; call/return stamps come from one atomic counter at the client boundary")
 	r.Assume("content = encoding/json document of the configuration value as marshalled by the harness; versions are opaque and only related to contents by what the API returned")
 
-	n := r.N(600, 30000)
-	workers := r.N(4, 8)
+	n := r.N(400, 6000)
+	workers := r.N(4, 12)
 	var wg sync.WaitGroup
 	var sigMu sync.Mutex
 	sigs := map[string]struct{}{}
